@@ -1,6 +1,8 @@
 // C06: transverse Mercator, series (TransverseMercator) and exact (TransverseMercatorExact)
 #include "common.hpp"
 #include "C06_oracle.hpp"
+#include "C06_exact.hpp"
+#include "C06_api.hpp"
 #include <GeographicLib/TransverseMercator.hpp>
 #include <GeographicLib/TransverseMercatorExact.hpp>
 #include <GeographicLib/Math.hpp>
@@ -351,6 +353,10 @@ void gv::generate(const std::string& tier, uint64_t seed) {
       double xi = r.pick(std::vector<double>{r.range(0, 1.5707), r.range(0, 1.5707), 0.0, 1e-10, 1.5707963267948966, 0.7}), eta = r.pick(std::vector<double>{r.range(0, 1.2), r.range(0, 0.6), 0.0, 1e-10, 0.05});
       run("tmkr", {hx(e.a), hx(e.f), hx(xi), hx(eta)}); stratum("kernel-rev");
     }
+    // overloads, inspectors, delegation, UTM() instances, the command-line tool
+    tmapi::generate(r, i, e.a, e.f, k0, lon0, lat, lon);
+    // exact form: closed forms, starting guesses, Newton loops, kernels against Model/TMExact.lean
+    if (use_exact(e.f)) tmx::generate(r, i, e.f);
   }
 }
 int main(int argc, char** argv) { return gv::main_(argc, argv); }
